@@ -208,6 +208,8 @@ def decode_bech32(s):
         number = (number << 5) + digit
     num_bytes = (len(data) - 7) * 5 // 8
     bits_to_ignore = (len(data) - 7) * 5 % 8
+    if bits_to_ignore > 4:
+        raise ValueError(f"more than 4 bits of padding: {s}")
     if number & ((1 << bits_to_ignore) - 1):
         raise ValueError(f"non-zero padding: {s}")
     number >>= bits_to_ignore
